@@ -878,7 +878,7 @@ def protocol_suite(ctx, n_quick=400, n_thorough=4000, gen_kw=None, salt=0):
     sscns = [scenario.gen(srng, n_min=4, n_max=5, groups_max=2, allow_time=True) for _ in range(3 if q else 12)]
     ctx.impl_model("JadeImpl simulation on random 4-5-job scenarios", sscns, maxb=5, maxuser=4,
                    simulate=f"num={120 if q else 4000}", max_replay=80 if q else 2000, timeout=1500)
-    kw = dict(n_min=2, n_max=6 if q else 9, groups_max=2, eager=0.04, onehost=0.2)
+    kw = dict(n_min=2, n_max=6 if q else 9, groups_max=2, eager=0.04, onehost=0.2, nodist=0.12)
     kw.update(gen_kw or {})
     tasks = [("random_hpc", (s, kw)) for s in seeds(ctx, n_quick if q else n_thorough, salt)]
     ctx.judge(run_tasks(tasks), "random HPC submissions")
